@@ -158,7 +158,16 @@ def specs_text(names):
     if isinstance(names, str): names = [names]
     return '\n'.join(open(os.path.join(ROOT, 'contracts', n)).read() for n in names)
 
+import threading
+_HEAVY_LOCK = threading.Lock()
 def run_ob(ob, tier, workdir):
+    """returns result dict; families with a large memory limit run one at a time within a check"""
+    if ob.mem_gb and ob.mem_gb >= 24:
+        with _HEAVY_LOCK:
+            return _run_ob(ob, tier, workdir)
+    return _run_ob(ob, tier, workdir)
+
+def _run_ob(ob, tier, workdir):
     """returns result dict"""
     res = dict(id=ob.id, tier=ob.tier, status='error', reason='', results=[], solver_s=0.0, wall_s=0.0, functions=[],
                covers=(0, 0), bounds=ob.bounds, note=ob.note, log=None, loops=0, enforce=ob.enforce, replace=ob.replace)
@@ -593,6 +602,11 @@ def setup():
 
 if __name__ == '__main__':
     if len(sys.argv) < 2: sys.exit(2)
+    if os.environ.get('PYTHONHASHSEED') != '0':
+        # the emitted C text must not depend on Python's per-process hash randomisation (iteration order of sets):
+        # identical sources then give identical text, hence identical cache keys and evidence hashes
+        os.environ['PYTHONHASHSEED'] = '0'
+        os.execv(sys.executable, [sys.executable] + sys.argv)
     if sys.argv[1] == 'setup': sys.exit(setup())
     if sys.argv[1] == 'check':
         prop = sys.argv[2]
